@@ -318,6 +318,8 @@ def run(ctx, report: Report) -> None:
     from .sem import root_table, same_type_table
     same_type_table(ctx, r5)
     root_table(ctx, r5)
+    from .sem import identity_table
+    identity_table(ctx, r5)
 
     r7 = report.rule('C01-R7', 'a comma resets every piece of per-alternative parser state (parsed token sequences)', floor=8)
     from .sem import comma_tables
